@@ -110,6 +110,10 @@ def getEcho (j : Json) : Nat → Option Val :=
   | .ok ks => fun k => if ks.contains k then some (Val.tup [.str "echo", .int k]) else none
   | .error _ => fun _ => none
 
+def isEchoVal : Val → Bool
+  | .tup (.str "echo" :: _) => true
+  | _ => false
+
 def hasEcho (j : Json) : Bool :=
   match j.getObjValAs? (List Nat) "echo" with
   | .ok (_ :: _) => true
@@ -169,6 +173,8 @@ def handle1 (op : String) (j : Json) : Except String Json := do
       (if w = 0 then none else some (simStart (tfOp w) (fun _ => []) sub none none src)))
   | "debounce" =>
     let d ← getNat j "d"
+    if hasEcho j then
+      return Json.mkObj [("run", tlToJson (simRunFb (debOp d) (fun _ => []) (getEcho j) isEchoVal (4 * src.length + 16) 0 sub (srcItems src) {}))]
     pure (both3 (debRun d {} src) (debSpec d src) (some (simStart (debOp d) (fun _ => []) sub none {} src)))
   | "sample" =>
     let (ticks, tf) : List (Nat × SampEv) × Bool ←
@@ -179,7 +185,7 @@ def handle1 (op : String) (j : Json) : Except String Json := do
         pure (samplerEvents (seen sk sub (← tlOfJson (← getArr oj "msgs"))), isCold && sk == "hot")
       | _ => do pure (intervalTicks sub (← getNat j "period") (← getNat j "stop"), false)
     if hasEcho j then
-      return Json.mkObj [("run", tlToJson (sampSimFb (getEcho j) (fun v => match v with | .tup (.str "echo" :: _) => true | _ => false) 0 (mergeStable (sampSrcItems src ++ sampTickItems ticks)) true {}))]
+      return Json.mkObj [("run", tlToJson (sampSimFb (getEcho j) isEchoVal 0 (mergeStable (sampSrcItems src ++ sampTickItems ticks)) true {}))]
     let q := if tf then mergeStable (sampTickItems ticks ++ sampSrcItems src) else mergeStable (sampSrcItems src ++ sampTickItems ticks)
     pure (both3 (sampRun tf {} src ticks) (sampSpec tf none src ticks) (some (sampSim q true {})))
   -- C15
@@ -202,6 +208,12 @@ def handle1 (op : String) (j : Json) : Except String Json := do
   | "throttle_with_mapper" =>
     let inners ← getInners j
     let raises ← getRaises j
+    if hasEcho j then
+      let inn : Nat → InnerObs := fun c =>
+        match innerOf inners c with
+        | .cold tl => .cold ((conform tl).map (fun m => (m.1, sigOf m.2)))
+        | .inline sigs => .inline sigs
+      return Json.mkObj [("run", tlToJson (twmSimFb raises (getEcho j) isEchoVal inn 2000 0 {} (src.map (fun m => (m.1, MEv.src m.2)))))]
     let tr := mergeStable (srcEvents inners 0 0 src ++ elemInners inners 0 src)
     pure (both (twmRun raises tr) (twmSpec raises tr))
   | "delay_with_mapper" =>
